@@ -34,6 +34,7 @@ type decOut struct {
 	Msg   string   `json:"msg,omitempty"`
 	Panic string   `json:"panic,omitempty"`
 	Msgs  []string `json:"msgs,omitempty"`
+	Strs  []string `json:"strs,omitempty"` // for every KeyMsg in Msgs its String(), "" for other messages
 	Why   string   `json:"why,omitempty"`
 	Ref   []string `json:"ref,omitempty"`   // accounting reference loop over the real detectOneMsg
 	RefW  []int    `json:"ref_w,omitempty"` // widths of the reference runs
@@ -172,7 +173,7 @@ func runRead(in decIn) decOut {
 	defer cancel()
 	msgs := make(chan tea.Msg)
 	var mu sync.Mutex
-	var got []string
+	var got, strs []string
 	consumerDone := make(chan struct{})
 	stop := make(chan struct{})
 	go func() {
@@ -187,6 +188,11 @@ func runRead(in decIn) decOut {
 			case m := <-msgs:
 				mu.Lock()
 				got = append(got, tea.VerifDescribeMsg(m))
+				if k, ok := m.(tea.KeyMsg); ok {
+					strs = append(strs, k.String())
+				} else {
+					strs = append(strs, "")
+				}
 				mu.Unlock()
 				n++
 			case <-stop:
@@ -237,6 +243,7 @@ func runRead(in decIn) decOut {
 	<-consumerDone
 	mu.Lock()
 	out.Msgs = append([]string{}, got...)
+	out.Strs = append([]string{}, strs...)
 	mu.Unlock()
 	return out
 }
